@@ -268,27 +268,31 @@ claim("C04",
 # clauses added in rounds 2-3 (DESIGN.md section 13b); appended to the claim text of the property
 LINTS = (" Package-wide disciplines checked in the property's modules: truthiness tests only on boolean-valued expressions "
          "(TRUTH), no rounding / truncation / tolerance / fixed-precision formatting (LOSSY), no function modifies an "
-         "argument (PURE).")
+         "argument (PURE), every name and self-attribute resolves (NAMES), accumulators used as quantities receive one on "
+         "every path (ACC), copy() copies every field (COPY), only constructors / setters / named mutators store into self "
+         "(QUERY).")
 ADDENDA = {
     "C01": " The graph is undirected in get_edge and in the neighbour enumeration of the graph kinetics (NEIGH); Iterate runs the "
            "whole derivative pass before the update pass." + LINTS,
-    "C02": " The grid neighbour table is exactly GetNeighborIndex(coordinates of i, n) and is written nowhere else, graph edges are "
+    "C02": " The Euler derivative pass does not write the state and a separate update pass exists (PHASE); state and chemostat flags reach Init in one layout with counts of the right kind (TRANSPOSE). The grid neighbour table is exactly GetNeighborIndex(coordinates of i, n) and is written nowhere else, graph edges are "
            "registered from both ends (NBR-TABLE); un-coarse-graining gives each cell node value / node size (UNCG)." + LINTS,
     "C03": " The chemostat map crosses the ctypes boundary as a c_int array (FFI); a state update depends on the flag of its own "
            "entry and on no other entry's flag." + LINTS,
-    "C04": LINTS,
+    "C04": " Dimensioned fields are serialised with their units (SERIAL); a quantity constructed from a quantity takes number and label from one object (CTOR); the script level hands its units system to referenced system files." + LINTS,
     "C05": " Comparison operators return the comparison of the magnitudes itself (CMP); the array (op) array branch is dominated by "
            "the length test (LEN)." + LINTS,
-    "C06": " _UnitsComponentDict.__eq__ is true only when all three components are equal (EQ3)." + LINTS,
+    "C06": " Every call of convert_value / compute_conversion_factor names the converted object's own system as the source (ARGS); module-level constants (Avogadro) are folded into the SI table check. _UnitsComponentDict.__eq__ is true only when all three components are equal (EQ3)." + LINTS,
     "C07": " A diffusion event moves one molecule between a cell and that direction's neighbour, each half suppressed only by its own "
            "chemostat flag (PAIR); every value returned by Poisson(lambda) is 0 or one draw of std::poisson_distribution(lambda) "
-           "from the engine's generator (TAU).",
+           "from the engine's generator (TAU); every number the engines receive is converted to the molecule-forced engine units "
+           "(UNITS); event choice and waiting time use independent uniform draws (DRAWS).",
     "C08": " setup / _setup_grid / _setup_graph / simulate_script do not write through any alias of the caller's script (PY-PURE)."
            + LINTS,
-    "C09": LINTS,
-    "C10": LINTS,
+    "C09": " A saved trajectory carries the recorded times (TRAJ)." + LINTS,
+    "C10": " setup leaves the caller's script untouched (PY-PURE)." + LINTS,
     "C11": " An index formed by adding a value of no index kind to an index of a known kind is reported as unbounded; a Python buffer "
-           "built by a length-changing call (np.unique, set, filter ...) does not have the extent the engine is told.",
+           "built by a length-changing call (np.unique, set, filter ...) does not have the extent the engine is told; neighbour counts and "
+           "rows grow on exactly the same paths (RAGGED-PAIR).",
     "C12": " A writer emits each key on every path except the two idioms whose absence reads back as the same value (COND-KEY); "
            "str(UnitValue) prints str(value), a blank, the units (shared with C18)." + LINTS,
     "C13": " get_value_in_env selects by membership (`in` / dict.get), never by truthiness (ENV)." + LINTS,
